@@ -317,7 +317,9 @@ def run(ctx):
                        "output = input; corr I: init segments of the built segmenter (single / -m; sample entries avc1, avc3, hvc1, "
                        "hev1, av01, mp4a, ac-3, ec-3, enca, two entries), resegmenter and combine-segs (driver + tool) vs C11InitModel; "
                        "corr X: CreateMultiTrackFragment + AddFullSampleToTrack per track + Encode with / without OptimizeTrun, 1-3 "
-                       "tracks, tracks (also all) without samples, read back with an adversarial trex; "
+                       "tracks, tracks (also all) without samples, read back with an adversarial trex; search imux: the same "
+                       "through INTERLEAVED runs (V A V A: several truns per track, each run with its own common duration / "
+                       "size / flags), Encode and EncodeSW, optimisation on / off: every track reads back what was added; "
                        "corr G: per-sample fetch through the tagged driver (GetFullSamplesForInterval, GetSamplesForInterval, "
                        "copyMediaData, TranslateSampleFlagsForFragment on Go structs set from text): %d consistent table sets (1-14 "
                        "samples, stts runs incl. zero-count entries, ctts runs incl. zero-count, explicit/uniform sizes incl. 0, 1-n "
